@@ -255,7 +255,7 @@ def run_pair_checks(ctx, entries, rng, label, arg_digest, nobj):
         ctx.check()
         if ok2 and not same_result(r1, r2):
             ctx.violation(f"second-call-differs:{name}", f"{name} called twice on the same {label} gave different results", {"entry_point": name})
-        ctx.case([name, arg_digest], nobj >= 20, cls=name)
+        ctx.case([name, arg_digest], nobj >= 20, cls=name, sample={"entry_point": name, "argument": label, "objects_in_argument": nobj})
     # pairs in both orders (sampled)
     names = [e for e in entries]
     for _ in range(4):
